@@ -153,9 +153,13 @@ def oracle(payload):
             # (a) lumped load on the feed pulse adds exactly z; two loads add their sum; zero load changes nothing
             z1 = complex(rng.uniform(0, 200), rng.uniform(-300, 300)); z2 = complex(rng.uniform(0, 50), rng.uniform(-50, 50))
             sp = copy.deepcopy(spec); sp['loads'] = [dict(kind='imp', z=[z1.real, z1.imag], attach=[[j]])]
-            _, zB = _zin(sp)
+            mB, zB = _zin(sp)
             if abs(zB - (zA + z1)) > tol * max(abs(zA), abs(z1)):
                 bad.append('feed load: Zin %r + %r became %r' % (zA, z1, zB))
+            # the load is in series ONCE, however often the antenna is solved
+            mB.compute(); zB2 = mB.sources[0].impedance
+            if abs(zB2 - zB) > tol * max(abs(zB), abs(z1)):
+                bad.append('feed load after solving the same object again: Zin %r became %r (load %r)' % (zB, zB2, z1))
             sp['loads'].append(dict(kind='imp', z=[z2.real, z2.imag], attach=[[j]]))
             _, zC = _zin(sp)
             if abs(zC - (zA + z1 + z2)) > tol * max(abs(zA), abs(z1)):
